@@ -250,6 +250,38 @@ pub fn queued(site: &'static str, offset: u64, data: &[u8]) {
     }
 }
 
+/// Consulted right after `io_uring_enter` (submit-and-wait) returned. `None` = keep the
+/// real result; `Some(error)` = the caller is told the call failed with that error. (The
+/// kernel has run the submissions by then; a handler that reports a failure hides the
+/// completions from the caller through the `uring_cqe_hidden` flag, so that what the
+/// caller sees is "enter failed, nothing is known to have completed".)
+pub fn uring_enter() -> Option<std::io::Error> {
+    let handler = current()?;
+    if handler.flag("uring_enter_intr") {
+        return Some(std::io::Error::from(std::io::ErrorKind::Interrupted));
+    }
+    if handler.flag("uring_enter_fail") {
+        return Some(std::io::Error::other("verif: injected io_uring_enter failure"));
+    }
+    None
+}
+
+/// A completion for the buffer at `pointer` has been reaped; returns the result the
+/// caller is to see (the real one unless the handler replaces it).
+pub fn uring_completion(pointer: u64, len: usize, result: i32) -> i32 {
+    let Some(handler) = current() else {
+        return result;
+    };
+    handler.note("uring_done", pointer, len as u64);
+    if handler.flag("uring_cqe_error") {
+        return -5; // -EIO
+    }
+    if handler.flag("uring_cqe_short") {
+        return (len / 2) as i32;
+    }
+    result
+}
+
 /// Consulted before `fsync`. `None` = carry on; `Some(Err)` = fail without syncing;
 /// `Some(Ok)` = sync, then fail (the caller performs the sync and reports the error).
 pub fn intercept_fsync() -> Option<crate::error::Result<()>> {
